@@ -246,12 +246,17 @@ def run(ctx):
                 ok = e.key == T.call("abs", (cid,)) and a[0] == T.call("abs", (cid,))
     ctx.check(ok, "SIB", f"{cl.qualname} / SIB / cell cycle reversed iff its key is negative; stored under abs(key)", ctx.where(cl),
               "vertices[::-1] if cid < 0", "the cycle of a cell with a negative key is not reversed (or the cell is not stored under abs(key))")
-    es_ = [e for e in sc.stores() if e.sub and e.value[0] == "call" and e.value[1] == "new:forsys.edge.SmallEdge"]
+    all_e = rules.entries(sc)
+    for nm in sorted({a_.name for a_ in sc.events if a_.kind == "assign"}):
+        all_e += [en for en in rules.entries(sc, name=nm) if en.how != "store"]
+    es_ = [e for e in all_e if e.loops() and e.elem[0] == "call" and e.elem[1] == "new:forsys.edge.SmallEdge"]
     ok = False
     for e in es_:
-        b = ("bv", e.loops()[0][1])
-        eid, pair = T.idx(b, T.num(0)), T.idx(b, T.num(1))
-        a = e.value[2]
+        ro = rules.roles(e.loops()[-1])
+        if ro.kind != "items":
+            continue
+        eid, pair = ro.key, ro.val
+        a = e.elem[2]
         ok = e.key == T.call("abs", (eid,)) and a[0] == T.call("abs", (eid,)) and a[1][0] == "idx" and a[1][2] == T.idx(pair, T.num(0)) \
             and a[2][0] == "idx" and a[2][2] in (T.idx(pair, T.num(-1)), T.idx(pair, T.num(1)))
     ctx.check(ok, "SIB", f"{cl.qualname} / SIB / SmallEdge(abs(id), vertices[pair[0]], vertices[pair[-1]])", ctx.where(cl),
